@@ -23,6 +23,7 @@ func runC01(p *core.Prog, r *core.Result) {
 		"R1.5 a function target is up to date only if forced-rerun is recorded, or its environment is unchanged and every declared output exists",
 		"R1.6 generated files are linked to their generator on every full load, and a linked file depends on its generator",
 		"R1.7 records are written only after a successful body; a failed body records a pending re-run",
+		"R1.9 a source file is reported up to date only on equality of its recorded sum with a hash of its current contents computed during that very check (no cache, size or modification-time shortcut in between)",
 		"R1.8 loading a target writes back the record read with every field but the documentation unchanged (type-driven, field by field): a failed target's pending re-run survives any number of loads that do not run it",
 	}
 	r.NotDecided = []string{"equality of the files produced with a from-scratch build for any particular history", "that the Starlark compiler's ModuleEnv captures everything a function can observe", "completeness of the environment (decided under C08 R8.5) and injectivity of the codec (decided under C07)"}
@@ -204,6 +205,9 @@ func runC01(p *core.Prog, r *core.Result) {
 
 	// ---- R1.8 a load preserves the record (a pending re-run survives loads that do not run the target)
 	checkLoadRewritesRead(p, r, "R1.8")
+
+	// ---- R1.9 a source is compared by a fresh hash of its current contents
+	checkSourceCompare(p, r, "R1.9")
 }
 
 // checkStampDependsOnDeps: R1.3.
